@@ -140,6 +140,16 @@ class Session:
             return "ok"
         if o == "lenav":
             return str(b.len_available(unhx(toks[1])))
+        if o == "advlm":      # one list of bytearray chunks (what chunk() returns), advertised twice
+            items = [bytearray(unhx(x)) for x in toks[1].split(",")]
+            try:
+                b.advertise(items)
+                p1 = hx(self.sent[-1])
+                b.advertise(items)
+                out = f"sent={p1},{hx(self.sent[-1])}"
+            except Exception as e:  # noqa: BLE001
+                out = "exc=" + exc_name(e)
+            return out + " list=" + ",".join(hx(x) for x in items)
         if o in ("adv", "advl", "advbad"):
             n = len(self.sent)
             if o == "adv":
